@@ -3,6 +3,8 @@ CONSTANTS
  Paths = {"l1", "l2"}
  MaxOps = 4
  Emit = FALSE
+ PageSizes = {0, 1}
+ ClearPerPage = FALSE
 SPECIFICATION Spec
 VIEW View
 INVARIANT AtMostOneOwner
